@@ -93,7 +93,8 @@ def generate(rng, tier="quick"):
             op["ref"] = urljoin(world.get("root_url") or "http://sim.test/root/root.json", rng.choice(refs))
         elif kind == "resolve_fragment":
             op["doc"] = rng.choice(sorted(world["docs"]) + [""])
-            op["frag"] = rng.choice(["", "/definitions/n0", "/definitions", "/nowhere", "/definitions/n1/items"])
+            op["frag"] = rng.choice(["", "/definitions/n0", "/definitions", "/nowhere", "/definitions/n1/items",
+                                     "/definitions/~01", "/definitions/~1", "/definitions/~00", "/definitions/~0"])
         elif kind == "resolving":
             op["ref"] = rng.choice(refs)
             op["body_raises"] = rng.random() < 0.5
@@ -150,7 +151,12 @@ def execute(scn):
     nontrivial = False
     steps = 0
     states = []
+    from dsim import canon
     for i, op in enumerate(scn["ops"]):
+        if canon.nodes() > 25000:
+            # exponential error trees: the rest of the history is dropped (a count, not a clock)
+            actor.probe("history_cut_short_heavy_error_trees")
+            break
         calls_before = dict(actor.transport.calls)
         pr0 = dict(actor.probes)
         d_before = None
